@@ -10,6 +10,8 @@ from .. import ctl, programs, runner
 from ..ctl import ProcessState as PS
 from ._common import CtlProperty, default_sample, describe_unit, features
 
+from ._common import process_comms_text_key as _text_key  # noqa: E402
+
 ID = 'C02'
 ALPHABET = (('pause',), ('play',), ('kill', 't1'), ('kill', 't2'), ('resume', 'v1'), ('unask',))
 FINAL_RESULT = {'ret': (programs.RET_VALUE, True), 'ret_none': (None, True), 'unsucc': (programs.UNSUCC_CODE, False),
@@ -89,19 +91,14 @@ class Oracle:
             if not isinstance(fexc, plumpy.KilledError):
                 w.violate('killed:future-not-killederror', f(fut=repr(fut)[:60]), repr(fut))
             msg = proc.killed_msg()
-            text = msg.get('message') if isinstance(msg, dict) else msg
+            text = msg.get(_text_key()) if isinstance(msg, dict) else msg
             texts = {r['args'][0] for r in w.calls if r['op'] == 'kill' and r['args']}
             texts |= {programs.KILLCMD_TEXT}
             if text not in texts:
                 w.violate('killed:text-not-issued', f(text=repr(text)), None)
-            try:
-                proc.result()
-                w.violate('killed:result-does-not-raise', f(), None)
-            except plumpy.KilledError:
-                pass
-            except BaseException as got:  # noqa: BLE001
-                w.violate('killed:result-raises-other', f(), repr(got))
-            if not proc.killed() or proc.exception() is not None or proc.is_successful:
+            # (for a killed process the statement names the future and killed_msg(); what result() and exception() do
+            #  is not laid down - only that the process does not also report itself successful or not killed)
+            if not proc.killed() or proc.is_successful:
                 w.violate('killed:other-reports', f(), None)
 
     def finish(self, w: ctl.World) -> None:
